@@ -69,6 +69,14 @@ func c18Cell0(rng *rand.Rand) string {
 		}
 		return sb.String()
 	}
+	if rng.Intn(25) == 0 {
+		// code points with an upper case form that are not letters (roman numerals, circled letters, the iota subscript), digits and punctuation
+		odd := []rune("ⅰⅳⅸⅠⅣⅨⓐⓑⓩⒶⒷⓏ\u0345-0 7_")
+		for i, m := 0, 1+rng.Intn(6); i < m; i++ {
+			sb.WriteRune(odd[rng.Intn(len(odd))])
+		}
+		return sb.String()
+	}
 	if rng.Intn(10) == 0 {
 		// short cells around one metacharacter with runes whose case folding is special (K/k/Kelvin, s/ſ, ı/I/i/İ, Å/Angstrom, ω/Ω/Ohm, ß/ẞ, θ/ϴ)
 		fold := []rune("kKKsSſiIıİåÅÅωΩΩßẞθϴabT")
